@@ -31,7 +31,10 @@ RULE = ('SimpleClient on the real Client on the harness engine, its two '
         'receive(timeout) repeatedly, optionally an emitter. Small shapes '
         'are enumerated by DFS over all schedules, larger ones sampled. '
         'AsyncSimpleClient on the deterministic loop: generated orders of '
-        'stimuli (deliver, start receive, lose, reconnect, timer) injected '
+        'stimuli (deliver, start receive, lose, reconnect, timer, server '
+        'DISCONNECT packet, event + engine.io CLOSE in one payload, event + '
+        'transport failure in one read, event arriving at the instant a '
+        'time-out expires) injected '
         'at idle points or back to back, optionally followed by a second '
         'connect() on the same object once the first connection has ended '
         'for good (event, ordinary loss, emit() waiting the reconnection '
@@ -78,11 +81,29 @@ def strategy(tier):
     stim = st.one_of(
         st.just('ev'), st.just('ev'), st.just('recv'), st.just('recv1'),
         st.just('tick'), st.just('lose'), st.just('reconnect_ok'),
-        st.just('reconnect_fail'), st.just('emit'))
+        st.just('reconnect_fail'), st.just('emit'),
+        # the server ends the namespace (DISCONNECT packet, dispatched like
+        # any message); an event and an engine.io CLOSE in one payload; an
+        # event that arrives at the very instant a receive() time-out expires
+        st.just('sdisc'), st.just('ev_close'), st.just('ev_tick'),
+        # an event and the failure of the transport within one read: the
+        # failure is processed before the event's handler task
+        st.just('ev_lose'))
     asy = st.fixed_dictionaries({
         'aio': st.just(True),
-        'groups': st.lists(st.lists(stim, min_size=1, max_size=3),
-                           min_size=2, max_size=14 if big else 9),
+        'groups': st.lists(st.one_of(
+            st.lists(stim, min_size=1, max_size=3),
+            st.lists(stim, min_size=1, max_size=3),
+            # a returning client that the server accepts, serves and ends
+            # within one payload; a receive() parked across the loss
+            st.sampled_from([['reconnect_ok', 'ev', 'sdisc'],
+                             ['reconnect_ok', 'sdisc'],
+                             ['reconnect_ok', 'ev', 'ev_close'],
+                             ['lose', 'recv'], ['lose', 'recv1'],
+                             ['recv1', 'ev_tick'], ['ev', 'sdisc'],
+                             ['ev_close'], ['ev_lose', 'recv'],
+                             ['ev_lose', 'recv1'], ['ev_lose']])),
+            min_size=2, max_size=14 if big else 9),
         'final': st.booleans(),
         # after the connection has ended for good the application calls
         # connect() again on the same simple client: nothing of the first
@@ -519,8 +540,72 @@ def _check_async(case):
         emits = []
         for group in case['groups']:
             spawned = []
+            answered = False
+            gone = False    # the transport fails within this group
             for s in group:
-                if s == 'ev':
+                if s in ('ev', 'sdisc', 'ev_close', 'ev_tick',
+                         'ev_lose') and (final[0] or gone):
+                    continue
+                if s == 'ev_lose':
+                    if h.eio.state == 'connected' and \
+                            '/ns' in h.sio.namespaces:
+                        n_ev[0] += 1
+                        fr = wire.frames(wire.EVENT, '/ns', None,
+                                         ['e', n_ev[0]])
+                        h.plan[:] = ['fail']
+
+                        async def payload(fr=fr):
+                            for f in fr:
+                                await h.eio._receive_packet(
+                                    ep.Packet(ep.MESSAGE, f))
+                            await h.eio._trigger_event(
+                                'disconnect', h.reason.TRANSPORT_ERROR,
+                                run_async=False)
+                            await h.eio._reset()
+                        spawned.append(loop.spawn(payload()))
+                        labels['event_and_loss_in_one_read'] = True
+                        labels['nontrivial'] = True
+                        gone = True
+                    continue
+                if s == 'sdisc':
+                    if h.eio.state == 'connected' and (
+                            answered or '/ns' in h.sio.namespaces):
+                        for f in wire.frames(wire.DISCONNECT, '/ns'):
+                            spawned.append(loop.spawn(h.eio._receive_packet(
+                                ep.Packet(ep.MESSAGE, f))))
+                        final[0] = True
+                        labels['server_disconnect_packet'] = True
+                        if pending:
+                            labels['nontrivial'] = True
+                elif s == 'ev_close':
+                    if h.eio.state == 'connected' and (
+                            answered or '/ns' in h.sio.namespaces):
+                        n_ev[0] += 1
+                        fr = wire.frames(wire.EVENT, '/ns', None,
+                                         ['e', n_ev[0]])
+
+                        async def payload(fr=fr):
+                            for f in fr:
+                                await h.eio._receive_packet(
+                                    ep.Packet(ep.MESSAGE, f))
+                            await h.eio._receive_packet(ep.Packet(ep.CLOSE))
+                        spawned.append(loop.spawn(payload()))
+                        final[0] = True
+                        labels['event_and_close_in_one_payload'] = True
+                        labels['nontrivial'] = True
+                elif s == 'ev_tick':
+                    if h.eio.state == 'connected' and \
+                            '/ns' in h.sio.namespaces:
+                        n_ev[0] += 1
+                        for f in wire.frames(wire.EVENT, '/ns', None,
+                                             ['e', n_ev[0]]):
+                            spawned.append(loop.spawn(h.eio._receive_packet(
+                                ep.Packet(ep.MESSAGE, f))))
+                        if pending and pending[0][1] is not None:
+                            labels['arrival_at_timeout_expiry'] = True
+                            labels['nontrivial'] = True
+                        loop.advance()
+                elif s == 'ev':
                     if h.eio.state == 'connected':
                         n_ev[0] += 1
                         for f in wire.frames(wire.EVENT, '/ns', None,
@@ -559,6 +644,7 @@ def _check_async(case):
                         if h.eio.state == 'connected' and \
                                 '/ns' not in h.sio.namespaces:
                             nconn[0] += 1
+                            answered = True
                             for f in wire.frames(wire.CONNECT, '/ns', None,
                                                  {'sid': 'sid%d' % nconn[0]}):
                                 spawned.append(loop.spawn(
@@ -585,10 +671,18 @@ def _check_async(case):
             loop.run_until_idle()
             harvest()
         # finite time-outs fire
-        for _ in range(4):
-            if pending and pending[0][1] is not None:
-                live = [tk for n, tk in h.tasks
-                        if n == '_handle_reconnect' and not tk.done()]
+        for _ in range(6):
+            live = [tk for n, tk in h.tasks
+                    if n == '_handle_reconnect' and not tk.done()]
+            if pending and pending[0][1] is not None or \
+                    live and final[0] and sc.connected or \
+                    live and pending and labels.get(
+                        'event_and_loss_in_one_read'):
+                # (a reconnection effort that the end of the connection has
+                # overtaken, and that has not told the application yet, is
+                # given the time to notice; a receive() without time-out
+                # that an event dispatched after the loss found parked for
+                # the reconnection returns when the reconnection resolves)
                 if live and h.plan[:1] == ['fail']:
                     final[0] = True     # the pending attempt will fail
                 loop.advance()
